@@ -435,9 +435,10 @@ Definition add_temp (r exp : N) : M unit := fun s =>
 
 Definition exec_store_sector (x : ctx) (e : env) (dataOff dur : N) : M N :=
   dom _ <- lift (pd_sector (xdata x) dataOff);
-  dom _ <- pay (store_sector_cost (xpt x) dur) std_usage;
+  (* fix C14-store-sector-duration-before-cost: the renter-chosen duration is checked before it is priced *)
   dom _ <- guard (dur =? 0) EInvalid;
   dom _ <- guard (MaxTempSectorBlocks <? dur) EInvalid;
+  dom _ <- pay (store_sector_cost (xpt x) dur) std_usage;
   dom _ <- write_sector e;
   dom _ <- add_temp (oroot e) (wadd (ptHeight (xpt x)) dur);
   ret 32.
